@@ -208,6 +208,7 @@ func (w *world) probes() []probeRes {
 				return false, err.Error()
 			}
 			b, _ := mk(1, 0)
+			b.Height = 1<<63 - 1 - int64(try) // inside the validator's height window whatever was received before
 			b.StateHash = []byte("verif-reject")
 			if err := bad.Publish(p2penv.TopicBlock, p2penv.Snap(b)); err != nil {
 				return false, err.Error()
@@ -223,8 +224,45 @@ func (w *world) probes() []probeRes {
 		}, 0},
 	}
 	res := make([]probeRes, len(probes))
+	runOne := func(p pf, bound time.Duration) probeRes {
+		t0 := time.Now()
+		r := probeRes{Name: p.name}
+		for time.Since(t0) < bound {
+			r.Tries++
+			ok, d := p.f(r.Tries)
+			r.Detail = d
+			if ok {
+				r.OK = true
+				break
+			}
+			time.Sleep(500 * time.Millisecond)
+		}
+		r.Ms = time.Since(t0).Milliseconds()
+		return r
+	}
+	// the block path first, alone (later probes move the validator's height window)
+	res[0] = runOne(probes[0], probeBound)
+	if !res[0].OK {
+		// diagnosis by experiment: a well-formed block at the top of the height range
+		top := pf{name: "diag", f: func(try int) (bool, string) {
+			b, _ := mk(1, 0)
+			b.Height = 1<<63 - 1 - int64(try)
+			b.TxHash = []byte("diag") // distinct hash
+			if err := w.good.Publish(p2penv.TopicBlock, p2penv.Snap(b)); err != nil {
+				return false, err.Error()
+			}
+			return posted(b, 3*time.Second), ""
+		}}
+		if d := runOne(top, 20*time.Second); d.OK {
+			res[0].Detail = "height-window: a well-formed block of height 2^63-1-k IS processed, blocks of ordinary heights are rejected as history"
+			res[0].Name += ":height-window-poisoned"
+		}
+	}
 	var wg sync.WaitGroup
 	for i, p := range probes {
+		if i == 0 {
+			continue
+		}
 		wg.Add(1)
 		go func(i int, p pf) {
 			defer wg.Done()
